@@ -1,13 +1,11 @@
-import Oracle.C01
+import Oracle.Util
 /-!
   Line-protocol driver: one request per line (`op arg…`, byte strings in hex, `-` = empty),
   one answer line per request.  The functions executed are the definitions the theorems are about.
 -/
-open Oracle
+namespace Oracle
 
-def handlers : List (String × Handler) := c01Handlers
-
-def step (line : String) : String :=
+def step (handlers : List (String × Handler)) (line : String) : String :=
   match (line.splitOn " ").filter (· ≠ "") with
   | [] => "bad-op"
   | op :: args =>
@@ -15,12 +13,14 @@ def step (line : String) : String :=
     | some h => h args
     | none => "bad-op"
 
-partial def loop (hin hout : IO.FS.Stream) : IO Unit := do
+partial def loop (handlers : List (String × Handler)) (hin hout : IO.FS.Stream) : IO Unit := do
   let line ← hin.getLine
   if line.isEmpty then return ()
-  hout.putStrLn (step (line.replace "\n" ""))
+  hout.putStrLn (step handlers (line.replace "\n" ""))
   hout.flush
-  loop hin hout
+  loop handlers hin hout
 
-def main : IO Unit := do
-  loop (← IO.getStdin) (← IO.getStdout)
+def run (handlers : List (String × Handler)) : IO Unit := do
+  loop handlers (← IO.getStdin) (← IO.getStdout)
+
+end Oracle
